@@ -1,6 +1,6 @@
 import ast, z3
-from vf2.spec import *
-from vf2.sym import to_real
+from vf.spec import *
+from vf.sym import to_real
 RPOW = z3.Function("rpow", z3.RealSort(), z3.RealSort(), z3.RealSort())
 def build(reg):
     x, y = z3.Reals("x_ y_")
